@@ -34,7 +34,7 @@ structure VState where
   buf : Bytes               -- `_inpbuf`
   bannerLines : Nat         -- `_banner_lines`
   phase : VPhase
-  deriving Repr, Inhabited
+  deriving Repr, DecidableEq, Inhabited
 
 def VState.init : VState := { buf := [], bannerLines := 0, phase := .version }
 
